@@ -1,6 +1,7 @@
 //! Process-level workers: ptrace stepper, crash-point enumeration (C04), liveness verdicts (C07).
 mod c04;
 mod c07;
+mod c19;
 mod scen;
 mod step;
 mod surv;
@@ -11,6 +12,7 @@ fn main() {
     match raw.get(1).map(|s| s.as_str()) {
         Some("child") => return scen::child(&raw[2], &raw[3], &raw[4]),
         Some("survivor") => return surv::solo(&raw[2], &raw[3], &raw[4]),
+        Some("lister") => return c19::lister(&raw[2], &raw[3]),
         Some("observer") => return c07::observer(&raw[2], &raw[3]),
         Some("owner") => return c07::owner(&raw[2], &raw[3], &raw[4]),
         Some("victim") => return c07::victim(&raw[2], &raw[3], &raw[4]),
@@ -21,6 +23,7 @@ fn main() {
     let rep = match args.sub.as_str() {
         "c04" => c04::run(&args),
         "c07" => c07::run(&args),
+        "c19iso" => c19::run(&args),
         "warmup" => return,
         other => {
             eprintln!("unknown sub command {:?}", other);
